@@ -48,6 +48,9 @@ type session struct {
 
 	// Temporary variable to reference next cryptographer
 	nextCryptographer crypto.Cryptographer
+
+	// nextWritten is true when the response following SetCryptographer() was written
+	nextWritten bool
 }
 
 // NewSession returns a session for a connection.
@@ -66,17 +69,34 @@ func (s *session) Connection() net.Conn {
 }
 
 func (s *session) Decrypter() crypto.Decrypter {
+	s.mu.Lock()
+	defer s.mu.Unlock()
+
 	// Return the next cryptographer when possible
 	// This allows sessions to switch encryption
-	if s.nextCryptographer != nil {
+	//
+	// The switch must not happen before the response of the request which negotiated
+	// the next cryptographer was written (see Encrypter). Otherwise a read, which is
+	// started in the background while the request is still handled, encrypts that response.
+	if s.nextCryptographer != nil && s.nextWritten {
 		s.cryptographer = s.nextCryptographer
 		s.nextCryptographer = nil
+		s.nextWritten = false
 	}
 
 	return s.cryptographer
 }
 
 func (s *session) Encrypter() crypto.Encrypter {
+	s.mu.Lock()
+	defer s.mu.Unlock()
+
+	if s.nextCryptographer != nil {
+		// The pending response is written with the current cryptographer,
+		// the following request is read with the next one.
+		s.nextWritten = true
+	}
+
 	return s.cryptographer
 }
 
@@ -92,7 +112,10 @@ func (s *session) SetCryptographer(c crypto.Cryptographer) {
 	// Temporarily set the cryptographer as the nextCryptographer
 	// The nextCryptographer is used the next time Decrypter() is called.
 	// Otherwise the Encrypter() encrypts differently than the previous Decrypter()
+	s.mu.Lock()
 	s.nextCryptographer = c
+	s.nextWritten = false
+	s.mu.Unlock()
 }
 func (s *session) SetPairSetupHandler(c ContainerHandler) {
 	s.pairStartHandler = c
